@@ -243,6 +243,10 @@ def run(pid, tier, seed):
 
 
 def replay(pid, payload):
+    if pid == "C19" and (payload.get("case") or {}).get("scenario"):
+        import core_checks
+        vs = core_checks.replay("C08", payload["case"])
+        return [dict(v, prop="C19" if v["prop"] == "C08" else v["prop"]) for v in vs]
     if pid == "C05" and payload.get("scenario"):
         wd = common.scratch()
         try:
